@@ -90,22 +90,28 @@ impl DatabaseRef for Inner {
     fn block_hash_ref(&self, n: u64) -> Result<B256, u8> { Err(0xE3) }
 }
 
-/// cached account content: balance / nonce / code hash, state, up to two slot values (under K1, K2)
-struct Cached { at: Address, balance: U256, nonce: u64, code_hash: [u8; 32], state: AccountState, n: usize, v: [U256; 2] }
-fn any_cached(at: Address, n: usize) -> Cached {
-    Cached { at, balance: any_u256(), nonce: kani::any(), code_hash: kani::any(), state: any_state(), n, v: [any_u256(), any_u256()] }
-}
-/// the cache, built through its public fields (no call into the code under test)
-fn build(c: Option<&Cached>, inner: Inner) -> CacheDB<Inner> {
-    let mut accounts: HashMap<Address, DbAccount> = HashMap::default();
-    if let Some(c) = c {
-        let mut storage: HashMap<U256, U256> = HashMap::default();
-        if c.n >= 1 { storage.insert(K1, c.v[0]); }
-        if c.n >= 2 { storage.insert(K2, c.v[1]); }
-        let info = AccountInfo { balance: c.balance, nonce: c.nonce, code_hash: B256::new(c.code_hash), code: None };
-        accounts.insert(c.at, DbAccount { info, account_state: c.state.clone(), storage });
+/// cache content of an instance.  `CACHED` (is there an account at all), `AT_A` (is it the queried address) and `N` (how many
+/// slots it holds, under K1, K2) are COMPILE-TIME constants of the instance: a run-time shape (even a concrete one behind an
+/// `Option` whose niche lives in the symbolic `AccountState`) makes CBMC walk the insert / rehash code of slots that are not there.
+struct Cached<const CACHED: bool, const AT_A: bool, const N: usize> { balance: U256, nonce: u64, code_hash: [u8; 32], state: AccountState, v: [U256; 2] }
+impl<const CACHED: bool, const AT_A: bool, const N: usize> Cached<CACHED, AT_A, N> {
+    fn any() -> Self {
+        Cached { balance: any_u256(), nonce: kani::any(), code_hash: kani::any(), state: any_state(), v: [any_u256(), any_u256()] }
     }
-    CacheDB { accounts, contracts: HashMap::default(), logs: Vec::new(), block_hashes: HashMap::default(), db: inner }
+    /// the queried address is in the cache
+    const HIT: bool = CACHED && AT_A;
+    /// the cache, built through its public fields (no call into the code under test)
+    fn build(&self, inner: Inner) -> CacheDB<Inner> {
+        let mut accounts: HashMap<Address, DbAccount> = HashMap::default();
+        if CACHED {
+            let mut storage: HashMap<U256, U256> = HashMap::default();
+            if N >= 1 { storage.insert(K1, self.v[0]); }
+            if N >= 2 { storage.insert(K2, self.v[1]); }
+            let info = AccountInfo { balance: self.balance, nonce: self.nonce, code_hash: B256::new(self.code_hash), code: None };
+            accounts.insert(if AT_A { A } else { B }, DbAccount { info, account_state: self.state.clone(), storage });
+        }
+        CacheDB { accounts, contracts: HashMap::default(), logs: Vec::new(), block_hashes: HashMap::default(), db: inner }
+    }
 }
 fn same_bool(a: &Result<bool, u8>, b: &Result<bool, u8>) -> bool {
     match (a, b) { (Ok(x), Ok(y)) => x == y, (Err(x), Err(y)) => x == y, _ => false }
@@ -115,120 +121,107 @@ fn same_word(a: &Result<U256, u8>, b: &Result<U256, u8>) -> bool {
 }
 
 // ------------------------------------------------------------------------------------------------ has_storage
-/// the oracle of the module documentation
-fn oracle_has(c: Option<&Cached>, inner_ans: Result<bool, u8>) -> Result<bool, u8> {
-    match c {
-        Some(c) if a_eq(&c.at, &A) => {
-            if (c.n >= 1 && nonzero(c.v[0])) || (c.n >= 2 && nonzero(c.v[1])) {
-                Ok(true)
-            } else if knows_empty(&c.state) {
-                Ok(false)
-            } else {
-                inner_ans
-            }
-        }
-        _ => inner_ans,
-    }
-}
-/// both entry points (`DatabaseRef::has_storage_ref`, `Database::has_storage`) against the oracle
-fn check_has(c: Option<Cached>) {
+/// both entry points (`DatabaseRef::has_storage_ref`, `Database::has_storage`) against the oracle of the module documentation
+fn check_has<const CACHED: bool, const AT_A: bool, const N: usize>() {
+    let c = Cached::<CACHED, AT_A, N>::any();
+    let hit = Cached::<CACHED, AT_A, N>::HIT;
     let inner = Inner::any(K1);
     let inner_ans = inner.has;
-    let mut db = build(c.as_ref(), inner);
-    let want = oracle_has(c.as_ref(), inner_ans);
+    let mut db = c.build(inner);
+    let holds_nonzero = hit && ((N >= 1 && nonzero(c.v[0])) || (N >= 2 && nonzero(c.v[1])));
+    let want = if holds_nonzero {
+        Ok(true)
+    } else if hit && knows_empty(&c.state) {
+        Ok(false)
+    } else {
+        inner_ans
+    };
     let got_ref = db.has_storage_ref(A);
     assert!(same_bool(&got_ref, &want));
     let got = db.has_storage(A);
     assert!(same_bool(&got, &want));
     // vacuity guards: the three kinds of answer, and the two situations the independent seeds C20-1 / C21-1 get wrong
+    // (written as `<instance has no such case> || <case>`: a cover under a branch that is dead for the instance would count as unsatisfied)
     kani::cover!(matches!(want, Ok(true)));
     kani::cover!(matches!(want, Ok(false)));
     kani::cover!(matches!(want, Err(_)));
-    // (written as `<instance has no such case> || <case>`: a cover under a branch that is dead for the instance would count as unsatisfied)
-    let (at_a, n, st, v) = match c.as_ref() {
-        Some(c) if a_eq(&c.at, &A) => (true, c.n, c.state.clone(), c.v),
-        _ => (false, 0, AccountState::None, [U256::ZERO, U256::ZERO]),
-    };
-    kani::cover!(!at_a || matches!(st, AccountState::NotExisting));
-    kani::cover!(!at_a || matches!(st, AccountState::Touched));
+    kani::cover!(!hit || matches!(c.state, AccountState::NotExisting));
+    kani::cover!(!hit || matches!(c.state, AccountState::Touched));
     // a created account with constructor storage
-    kani::cover!(n < 1 || (matches!(st, AccountState::StorageCleared) && nonzero(v[0])));
+    kani::cover!(!hit || N < 1 || (matches!(c.state, AccountState::StorageCleared) && nonzero(c.v[0])));
     // a cached ZERO slot must not hide the inner database's storage
-    kani::cover!(n < 1 || (matches!(st, AccountState::None) && !nonzero(v[0]) && (n < 2 || !nonzero(v[1])) && matches!(inner_ans, Ok(true))));
+    kani::cover!(!hit || N < 1 || (matches!(c.state, AccountState::None) && !holds_nonzero && matches!(inner_ans, Ok(true))));
     core::mem::forget(db);
 }
 macro_rules! has {
-    ($name:ident, $c:expr) => {
+    ($name:ident, $cached:expr, $at_a:expr, $n:expr) => {
         #[kani::proof]
         #[kani::unwind(34)]
         #[kani::stub(std::hash::RandomState::new, fixed_random_state)]
-        fn $name() { check_has($c) }
+        fn $name() { check_has::<$cached, $at_a, $n>() }
     };
 }
 // (i) nothing cached
-has!(has_storage_not_cached, None);
+has!(has_storage_not_cached, false, false, 0);
 // (ii) cached, no slots, symbolic AccountState
-has!(has_storage_cached_0, Some(any_cached(A, 0)));
+has!(has_storage_cached_0, true, true, 0);
 // (iii) cached, one slot (symbolic value: zero and non-zero), symbolic AccountState
-has!(has_storage_cached_1, Some(any_cached(A, 1)));
+has!(has_storage_cached_1, true, true, 1);
 // (iv) cached, two slots
-has!(has_storage_cached_2, Some(any_cached(A, 2)));
+has!(has_storage_cached_2, true, true, 2);
 // another account is cached (with a slot): the answer for A is the inner database's
-has!(has_storage_other_cached_1, Some(any_cached(B, 1)));
+has!(has_storage_other_cached_1, true, false, 1);
 
 // ------------------------------------------------------------------------------------------------ storage_ref
-fn oracle_storage(c: Option<&Cached>, k: usize, inner_ans: Result<U256, u8>) -> Result<U256, u8> {
-    match c {
-        Some(c) if a_eq(&c.at, &A) => {
-            if k < c.n {
-                Ok(c.v[k])
-            } else if knows_empty(&c.state) {
-                Ok(U256::ZERO)
-            } else {
-                inner_ans
-            }
-        }
-        _ => inner_ans,
-    }
-}
-/// `storage_ref(A, key k)` (k = 0: K1, k = 1: K2)
-fn check_storage_ref(c: Option<Cached>, k: usize) {
-    let key = if k == 0 { K1 } else { K2 };
+/// `storage_ref(A, key K)` (K = 0: K1, K = 1: K2)
+fn check_storage_ref<const CACHED: bool, const AT_A: bool, const N: usize, const K: usize>() {
+    let c = Cached::<CACHED, AT_A, N>::any();
+    let hit = Cached::<CACHED, AT_A, N>::HIT;
+    let key = if K == 0 { K1 } else { K2 };
     let inner = Inner::any(key);
     let inner_ans = inner.slot;
-    let db = build(c.as_ref(), inner);
-    let want = oracle_storage(c.as_ref(), k, inner_ans);
+    let db = c.build(inner);
+    let want = if hit && K < N {
+        Ok(c.v[K])
+    } else if hit && knows_empty(&c.state) {
+        Ok(U256::ZERO)
+    } else {
+        inner_ans
+    };
     let got = db.storage_ref(A, key);
     assert!(same_word(&got, &want));
     kani::cover!(matches!(want, Ok(x) if nonzero(x)));
     kani::cover!(matches!(want, Ok(x) if !nonzero(x)));
+    kani::cover!(!hit || matches!(c.state, AccountState::StorageCleared));
+    kani::cover!(!hit || matches!(c.state, AccountState::Touched));
     core::mem::forget(db);
 }
 macro_rules! storage_ref {
-    ($name:ident, $c:expr, $k:expr) => {
+    ($name:ident, $cached:expr, $at_a:expr, $n:expr, $k:expr) => {
         #[kani::proof]
         #[kani::unwind(34)]
         #[kani::stub(std::hash::RandomState::new, fixed_random_state)]
-        fn $name() { check_storage_ref($c, $k) }
+        fn $name() { check_storage_ref::<$cached, $at_a, $n, $k>() }
     };
 }
-storage_ref!(storage_ref_not_cached, None, 0);
+storage_ref!(storage_ref_not_cached, false, false, 0, 0);
 // cached with slot K1 only: K1 is a hit, K2 a miss
-storage_ref!(storage_ref_cached_1_hit, Some(any_cached(A, 1)), 0);
-storage_ref!(storage_ref_cached_1_miss, Some(any_cached(A, 1)), 1);
-storage_ref!(storage_ref_cached_0_miss, Some(any_cached(A, 0)), 0);
+storage_ref!(storage_ref_cached_1_hit, true, true, 1, 0);
+storage_ref!(storage_ref_cached_1_miss, true, true, 1, 1);
+storage_ref!(storage_ref_cached_0_miss, true, true, 0, 0);
 
 // ------------------------------------------------------------------------------------------------ basic_ref
-fn check_basic_ref(c: Option<Cached>) {
+fn check_basic_ref<const CACHED: bool, const AT_A: bool, const N: usize>() {
+    let c = Cached::<CACHED, AT_A, N>::any();
+    let hit = Cached::<CACHED, AT_A, N>::HIT;
     let inner = Inner::any(K1);
     let inner_ans = inner.basic;
-    let db = build(c.as_ref(), inner);
+    let db = c.build(inner);
     // (balance, nonce, code hash) of the expected answer
-    let want: Result<Option<(U256, u64, [u8; 32])>, u8> = match c.as_ref() {
-        Some(c) if a_eq(&c.at, &A) => {
-            if matches!(c.state, AccountState::NotExisting) { Ok(None) } else { Ok(Some((c.balance, c.nonce, c.code_hash))) }
-        }
-        _ => inner_ans,
+    let want: Result<Option<(U256, u64, [u8; 32])>, u8> = if hit {
+        if matches!(c.state, AccountState::NotExisting) { Ok(None) } else { Ok(Some((c.balance, c.nonce, c.code_hash))) }
+    } else {
+        inner_ans
     };
     let got = db.basic_ref(A);
     let ok = match (&got, &want) {
@@ -244,12 +237,12 @@ fn check_basic_ref(c: Option<Cached>) {
     core::mem::forget(db);
 }
 macro_rules! basic_ref {
-    ($name:ident, $c:expr) => {
+    ($name:ident, $cached:expr, $at_a:expr, $n:expr) => {
         #[kani::proof]
         #[kani::unwind(34)]
         #[kani::stub(std::hash::RandomState::new, fixed_random_state)]
-        fn $name() { check_basic_ref($c) }
+        fn $name() { check_basic_ref::<$cached, $at_a, $n>() }
     };
 }
-basic_ref!(basic_ref_not_cached, None);
-basic_ref!(basic_ref_cached_0, Some(any_cached(A, 0)));
+basic_ref!(basic_ref_not_cached, false, false, 0);
+basic_ref!(basic_ref_cached_0, true, true, 0);
